@@ -279,6 +279,14 @@ def run_c09(ctx, spec):
         env2["VERIF_ONLY"] = str(only)
     ctx["tag"] = "C09plain"
     ev2, cr2, sg2 = driver.run_sharded(ctx, plain_bin, "TestVerifC09", cwd, 1, 3600, extra_env=env2, parallel=1)
+    # the CLI backend's fan-out (results and errors collected from worker goroutines), -race
+    be_bin, bt3 = driver.build_test(scratch, "v2", "tools/identify_license/backend", ["backend"], race=True, out="backend")
+    env3 = {"GORACE": "halt_on_error=0 log_path=%s" % race_log, "VERIF_WORKERS": "1", "VERIF_CASE_TIMEOUT": "900"}
+    if only is not None:
+        env3["VERIF_ONLY"] = str(only)
+    ctx["tag"] = "C09backend"
+    ev3, cr3, sg3 = driver.run_sharded(ctx, be_bin, "TestVerifC09Backend", cwd, 1 if only is not None else 2, 3600, extra_env=env3, parallel=1)
+    ev2, cr2, sg2 = ev2 + ev3, cr2 + cr3, sg2 | set(b"be" + x for x in sg3)
     nrep, distinct = parse_race_logs(race_log + ".*", "licenseclassifier/v2")
     viol = []
     for d in distinct:
@@ -294,21 +302,24 @@ def run_c09(ctx, spec):
     cov = {"race_build_s": round(bt1, 1), "race_reports": nrep, "distinct_race_reports": len(distinct), "race_processes": repeats,
            "storms": len(obs), "max_concurrent_calls_observed": maxc,
            "concurrent_calls_under_race_detector": sum((o.get("obs") or {}).get("calls", 0) for o in obs if o in [e for e in ev1 if e.get("ev") == "obs"])}
-    ctx["expected_dones"] = repeats + 1
+    ctx["expected_dones"] = repeats + 1 + (1 if only is not None else 2)
     ctx["tag"] = "C09"
     return driver.summarize(ctx, ev1 + ev2, cr1 + cr2, sg1 | sg2, spec, extra_cov=cov, extra_violations=viol, extra_samples=samples)
 
 
 SPECS["C09"] = dict(
     run=run_c09, test="TestVerifC09", engine="go-race-detector", level="exploration",
-    module="v2", pkgdir=".", harness=["v2"], builds=[dict(module="v2", pkgdir=".", harness=["v2"], race=True)],
+    module="v2", pkgdir=".", harness=["v2"], builds=[dict(module="v2", pkgdir=".", harness=["v2"], race=True),
+                                                     dict(module="v2", pkgdir="tools/identify_license/backend", harness=["backend"], race=True)],
     title="one classifier can be matched against from many goroutines at once",
     technique="Go race detector over repeated concurrent storms + differential against sequential results + corpus canary",
     rule=("storm = G goroutines (2/8/16 under -race, 64/256 in a plain build) released by a barrier, each issuing 3 (2) Match/MatchFrom calls over a small shared input set aimed at ONE corpus document "
           "(three variants of it with two far-apart edits, which drives go-diff into its half-match path on the shared corpus runes; an exact copy; a large license; a scenario file). "
           "The -race binary is run as 3 (quick) / 10 (thorough) separate processes with GORACE=halt_on_error=0 log_path=...; every 'WARNING: DATA RACE' block is parsed, de-duplicated by the pair of outermost module frames "
           "and innermost frames, and reported. Every concurrent result is compared with the result of the same call made alone; a SHA-256 canary over all corpus tokens/runes/dictionary is taken before and after. "
-          "Calls lasting >= 0.8 s are not judged for equality (go-diff's 1 s deadline). Non-trivial = storm in which >= 2 calls were observed open at the same time; distinct = (process, storm)."),
+          "Calls lasting >= 0.8 s are not judged for equality (go-diff's 1 s deadline). "
+          "CLI fan-out part (-race, 2 processes): the identify_license backend's ClassifyLicenses with 2/7/64/1000 tasks over 20-80 files of which some cannot be read (missing, dangling link, directory): "
+          "result multiset == sequential Match per file, exactly one error per unreadable file. Non-trivial = storm in which >= 2 calls were observed open at the same time; distinct = (process, storm)."),
     assumptions=list(V2_ASSUME) + ["the race detector only sees interleavings that occur; reports vary from run to run, hence repeated processes"],
     floor_evals={"quick": 10, "thorough": 100},
     floor_nontrivial={"quick": 8, "thorough": 80},
@@ -853,8 +864,8 @@ SPECS["C17"] = dict(
     builds=[dict(module=".", pkgdir="stringclassifier/searchset", harness=["searchset"]), dict(module=".", pkgdir="stringclassifier", harness=["strcls"])],
     title="v1 token offsets and candidate ranges always delimit real text",
     technique="invariant checks on tokenizer output, candidate ranges and returned Match ranges; exhaustive short strings + seeded workloads",
-    rule=("(1) tokenizer invariants (text == s[Offset:Offset+len], increasing non-overlapping tokens, every non-space rune covered, no whitespace inside a token) on EVERY string of length <= 6 (quick) / 7 (thorough) "
-          "over the 8-symbol alphabet {a, b, space, '.', newline, 0xFF, e-acute, a literal U+FFFD} (exhaustive=true refers to this sub-space), plus seeded long strings over a 14-symbol alphabet incl. NBSP, CJK, combining marks, "
+    rule=("(1) tokenizer invariants (text == s[Offset:Offset+len], increasing non-overlapping tokens, every non-space rune covered, no whitespace inside a token) on EVERY string of length <= 5 (quick) / 6 (thorough) "
+          "over the 10-symbol alphabet {a, b, space, '.', newline, 0xFF, e-acute, a literal U+FFFD, NUL, soft hyphen} (exhaustive=true refers to this sub-space), plus seeded long strings over a 14-symbol alphabet incl. NBSP, CJK, combining marks, "
           "U+2028, truncated UTF-8; (2) FindPotentialMatches invariants (candidates non-empty, ordered by target position, inside the target's token bounds, byte range 0 <= start <= end <= len(target)) on seeded "
           "(source, target) pairs from vocabularies of 2-8 one-letter words (highly repetitive), lengths 3-40, with/without an embedded copy, several separators incl. invalid bytes; "
           "(3) classifier level: for seeded (known values, unknown text) pairs incl. verbatim occurrences that begin/end in the middle of a token, sit strictly inside one token, are glued to punctuation or end the text, "
